@@ -13,7 +13,7 @@ import numpy as np
 
 from oracles.binrule import bin_members
 from vlib import cats, gen
-from vlib.core import HELD, VIOLATED, Check, Scratch, result
+from vlib.core import case_bits, HELD, VIOLATED, Check, Scratch, result
 
 
 def lattice(rng, edges, n):
@@ -115,6 +115,9 @@ class C10(Check):
         elif case["empty"] == "all_outside":
             z = np.where(rng.random(n) < 0.5, edges[0] * 0.5, edges[-1] + 1.0)
         w = rng.uniform(0.25, 4.0, n) if case["weighted"] else None
+        if w is not None and case_bits(case, "negative-weights") % 3 == 0:
+            # weights of either sign (only finiteness is required): sparsely populated cells end up with negative sums
+            w = w * rng.choice([-1.0, 1.0], n, p=[0.45, 0.55])
 
         cfg = Configuration.create(rmin=0.01, rmax=0.5, unit="deg", edges=edges.tolist(), closed=closed)
         counters = {}
